@@ -103,6 +103,8 @@ def value_exprs(stmts) -> list[ast.expr]:
 def run(chk: Check) -> None:
     ix = get_index()
     run_optional_truthiness(chk, ix)
+    run_by_name_binding(chk, ix)
+    run_duplicate_exemptions(chk, ix)
 
     # ---------------- R12.1
     r1 = chk.rule("R12.1", "in every branch guarded by <name> == '<operator spelling>', the Python operator applied to the operands / the IR opcode selected is the one spelled, with operands in parameter order", floor=30)
@@ -631,3 +633,68 @@ def run_optional_truthiness(chk: Check, ix) -> None:
             uses = [n for n in walk_no_nested(f.node) if isinstance(n, ast.Compare) and len(n.ops) == 1 and isinstance(n.ops[0], (ast.Is, ast.IsNot)) and isinstance(n.comparators[0], ast.Constant) and n.comparators[0].value is None and src_of(n.left) is not None]
             for u in uses:
                 r5.ok(f"{f.qualname}: `{norm(u)}` distinguishes None by identity", f.loc(u))
+
+
+def run_by_name_binding(chk: Check, ix) -> None:
+    """R12.6: a name (explicit keyword or TypedDict key) never binds to the `*args` formal of the same name."""
+    from ..cfg import branch_conditions
+    from ..kinds import KindEval, kind_subjects
+    r6 = chk.rule("R12.6", "map_actuals_to_formals: every site that binds an actual to the formal *found by name* (`formal_to_actual[formal_names.index(name)].append(ai)`) is conditional on that formal's kind not being ARG_STAR — `def g(*a)` has no parameter that a keyword `a` can fill (CPython: unexpected keyword argument); the explicit-keyword arm and the **TypedDict arm are siblings and must agree", floor=2)
+    KE = KindEval(ix)
+    maf = ix.func("mypy.argmap.map_actuals_to_formals")
+    par = maf.module.parents()
+    sites = []
+    for c in ast.walk(maf.node):
+        if isinstance(c, ast.Call) and isinstance(c.func, ast.Attribute) and c.func.attr == "append" and isinstance(c.func.value, ast.Subscript):
+            idx = c.func.value.slice
+            if isinstance(idx, ast.Call) and norm(idx.func).endswith("formal_names.index"):
+                sites.append((c, norm(idx)))
+    if len(sites) < 2:
+        raise AnalysisError(f"map_actuals_to_formals: {len(sites)} by-name binding sites found (expected the keyword arm and the TypedDict arm)")
+    for c, idx_text in sites:
+        st = c
+        while not isinstance(st, ast.stmt):
+            st = par[st]
+        pos, neg = branch_conditions(par, maf.node, st)
+        arm = "TypedDict-key" if any("TypedDictType" in norm(t) for t in pos) else "explicit-keyword"
+        key = f"map_actuals_to_formals: the {arm} arm binds by name only to a formal that is not *args"
+        excluded = False
+        atoms = []
+        for t in pos:
+            atoms += t.values if isinstance(t, ast.BoolOp) and isinstance(t.op, ast.And) else [t]
+        for t in atoms:
+            if f"formal_kinds[{idx_text}]" not in norm(t):
+                continue
+            subs = kind_subjects(t)
+            if len(subs) != 1:
+                continue
+            try:
+                ts = KE.truth_set(t, next(iter(subs)))
+            except AnalysisError:
+                continue
+            if "ARG_STAR" not in ts:
+                excluded = True
+        if excluded:
+            r6.ok(key, maf.loc(c))
+        else:
+            r6.violation(key, maf.loc(c), f"the binding `formal_to_actual[{idx_text}].append(ai)` is reached under {[norm(t) for t in pos]}: no test excludes an ARG_STAR formal of that name, so `g(**td)` / `g(a=..)` for `def g(*a)` fills *a from a keyword (CPython raises TypeError: unexpected keyword argument; with a **kw formal present the value is also checked against the wrong type)")
+
+
+def run_duplicate_exemptions(chk: Check, ix) -> None:
+    """R12.7: an exemption from the duplicate-value check that rests on `the shape is unknown` looks at the type."""
+    r7 = chk.rule("R12.7", "checkexpr.is_duplicate_mapping: each exemption clause for star actuals (`not (... ARG_STAR ... ARG_STAR2 ...)`) rests on the actual's shape being unknown when the call is checked, so it consults `actual_types` (a tuple and a TypedDict are of known shape: CPython raises `got multiple values for argument` when both supply the same parameter); the sibling clauses must agree on this", floor=2)
+    f = ix.func("mypy.checkexpr.is_duplicate_mapping")
+    rets = [n for n in ast.walk(f.node) if isinstance(n, ast.Return) and n.value is not None]
+    if len(rets) != 1 or not (isinstance(rets[0].value, ast.BoolOp) and isinstance(rets[0].value.op, ast.And)):
+        raise AnalysisError("is_duplicate_mapping: expected a single `return a and not (...) and not ...`")
+    clauses = [v.operand for v in rets[0].value.values if isinstance(v, ast.UnaryOp) and isinstance(v.op, ast.Not)]
+    star = [c for c in clauses if "ARG_STAR" in norm(c)]
+    if len(star) < 2:
+        raise AnalysisError(f"is_duplicate_mapping: {len(star)} star-actual exemption clauses found (expected 2)")
+    for c in star:
+        kinds = sorted({x.attr for x in ast.walk(c) if isinstance(x, ast.Attribute) and x.attr.startswith("ARG_")})
+        key = f"is_duplicate_mapping: the exemption for {'/'.join(kinds)} actuals consults the actual types"
+        if any(isinstance(x, ast.Name) and x.id == "actual_types" for x in ast.walk(c)):
+            r7.ok(key, f.loc(c))
+        else:
+            r7.violation(key, f.loc(c), f"the clause `{norm(c)[:140]}` exempts the pair whatever the types of the actuals: a `*tuple` and a `**TypedDict` of known shape that both supply one parameter are accepted although CPython raises TypeError (the sibling clause does look for TypedDictType)")
